@@ -128,6 +128,8 @@ def closed_country(b, rng, m, code, T, opts):
     margin = 0.0
     if opts.get('capitalists', False):
         margin = round(rng.uniform(0.05, 0.4), 3) if on_grid else rng.uniform(0.05, 0.4)
+        if rng.random() < 0.25:
+            margin = 0.0       # owners exist, but the firm is run at zero margin
         h['cap'] = b.sector('Capitalists', c, names.get('CAP', 'CAP'),
                             alpha_income=grid(rng, 0.4, 0.8, on_grid), alpha_fin=grid(rng, 0.1, 0.4, on_grid),
                             **({'good': good_kw} if good_kw else {}))
@@ -158,6 +160,17 @@ def closed_country(b, rng, m, code, T, opts):
     h['lab'] = b.sector('Market', c, LAB)
     if not multi:
         h['good'] = b.sector('Market', c, GOOD)
+    if opts.get('two_firms') and not multi:
+        # a second firm supplies part of the goods market by an allocation rule; the first is the residual supplier
+        kw2 = {'margin': 0.0}
+        if lab_kw:
+            kw2['labour'] = lab_kw
+        if good_kw:
+            kw2['output'] = good_kw
+        h['bus2'] = b.sector('FixedMarginBusiness', c, names.get('BUS2', 'BUS2'), **kw2)
+        share = round(rng.uniform(0.1, 0.5), 2)
+        b.add({'op': 'AddSupplier', 'market': h['good'], 'supplier': h['bus2'], 'eqn': '%s*DEM_%s' % (repr(share), GOOD)})
+        b.add({'op': 'AddSupplier', 'market': h['good'], 'supplier': h['bus'], 'eqn': None})
     # financial markets
     if treasury_cb:
         h['mm'] = b.sector('MoneyMarket', c, None, issuer='CB')
@@ -258,7 +271,7 @@ def gen_program(seed, family=None, tight=True, T=None, on_grid=True, with_main=T
         opts = {'fin': family == 'closed_fin', 'capitalists': family == 'capitalists' or (family == 'closed' and rng.random() < 0.2),
                 'treasury_cb': family == 'pc', 'multi_output': family in ('closed',) and rng.random() < 0.3,
                 'on_grid': on_grid, 'names': names, 'hh_variant': hh_variant,
-                'own_taxrate': S['swarm'].random() < 0.35}
+                'own_taxrate': S['swarm'].random() < 0.35, 'two_firms': S['swarm'].random() < 0.25}
         if opts['capitalists']:
             opts['multi_output'] = False
         code = rng.choice(['CA', 'US', 'C1', 'X'])
@@ -382,6 +395,18 @@ def gen_program(seed, family=None, tight=True, T=None, on_grid=True, with_main=T
                 others = [e2[kk] for e2 in info['economies'] for kk in ('hh', 'gov', 'bus') if e2[kk] not in (src, tgt)]
                 b.add({'op': 'RegisterCashFlow', 'model': m, 'source': src, 'target': rng.choice(others), 'var': vn,
                        'inc_src': rng.random() < 0.7, 'inc_dst': rng.random() < 0.5})
+        if family == 'multi_currency' and ext_pos == 'first' and rng.random() < 0.45:
+            # gold bought by a government, booked through the external sector's gold market while the model is
+            # still under construction; afterwards one more country joins an existing currency
+            gm = b.add({'op': 'GetSector', 'id': b.h('s'), 'country': ext, 'code': 'GOLD'})
+            e0 = info['economies'][rng.randrange(n)]
+            b.add({'op': 'AddVariable', 'sector': e0['gov'], 'name': 'GP', 'eqn': '0.0'})
+            set_exo(b, prm, e0['gov'], 'GP', path(prm, T, 0.2, 3.0, digits=2))
+            b.add({'op': 'SetGoldPurchases', 'gold': gm, 'sector': e0['gov'], 'var': 'GP', 'initial_stock': round(prm.uniform(5, 50), 1)})
+            if rng.random() < 0.7:
+                cur0 = e0['names']['code']       # Country(currency=None): the currency is the country code
+                c_late = b.country(m, 'ZZ', currency=cur0)
+                b.sector('Sector', c_late, 'OBS', has_F=True)
         if family == 'multi_currency_supply':
             for i, e in enumerate(info['economies']):
                 other = info['economies'][(i + 1) % n]
